@@ -258,7 +258,8 @@ def pipeline_case(rng, method=None, seq=None, **kw):
                 b['props']['max'] = max(mn, m_now - 1)
             m_now -= min(b['props']['max'], max(mn, m_now))  # conservative
             m_now = max(m_now, 1)
-        m_now += delta_m(b)
+        if not (b['name'] == 'criteriaMixing' and m_now < 2):      # mixing does nothing when fewer than two criteria are left
+            m_now += delta_m(b)
         pr = b['props']
         if 'randomSeed' in pr and rng.random() < 0.2:     # explicit 0 / left out
             if rng.random() < 0.5:
